@@ -5,8 +5,10 @@
 package main
 
 import (
+	"archive/zip"
 	"bytes"
 	"encoding/json"
+	"encoding/xml"
 	"fmt"
 	"hash/fnv"
 	"io"
@@ -755,6 +757,146 @@ func checkBuilders(r *ev.Run) {
 		var buf bytes.Buffer
 		if err := model3d.Write3MF(&buf, fileformats.ThreeMFUnitMillimeter, tris); err != nil {
 			r.Violation("3mf/write-error", err.Error(), c)
+		} else {
+			check3MF(r, "Write3MF", buf.Bytes(), string(fileformats.ThreeMFUnitMillimeter), tris, c)
+		}
+		// the encoder below it, given an explicit vertex list (with an unused vertex) and index triples
+		var vl [][3]float64
+		for _, v := range verts {
+			vl = append(vl, v.Array())
+		}
+		vl = append(vl, [3]float64{7, 8, 9})
+		buf.Reset()
+		if err := fileformats.Write3MFMesh(&buf, fileformats.ThreeMFUnitInch, vl, faces[:n]); err != nil {
+			r.Violation("3mf/write-error", err.Error(), c)
+		} else {
+			check3MF(r, "Write3MFMesh", buf.Bytes(), "inch", tris, c)
+		}
+	}
+}
+
+// check3MF opens the package, reads 3D/3dmodel.model and requires: the unit that was asked for, one object that the
+// build section refers to, every index in range, and the written faces (resolved to coordinates) equal to the given
+// faces as a multiset, corner order kept up to rotation. Coordinates are written with 32 decimals, so they are
+// compared to 1e-31 absolute / 1e-15 relative.
+func check3MF(r *ev.Run, name string, data []byte, unit string, tris []*model3d.Triangle, c meshCase) {
+	viol := func(kind, msg string) { r.Violation("3mf/"+name+"/"+kind, msg, c) }
+	zr, err := zip.NewReader(bytes.NewReader(data), int64(len(data)))
+	if err != nil {
+		viol("not-a-zip", err.Error())
+		return
+	}
+	files := map[string][]byte{}
+	for _, f := range zr.File {
+		rc, err := f.Open()
+		if err != nil {
+			viol("unreadable-part", f.Name+": "+err.Error())
+			return
+		}
+		b, err := io.ReadAll(rc)
+		rc.Close()
+		if err != nil {
+			viol("unreadable-part", f.Name+": "+err.Error())
+			return
+		}
+		if _, dup := files[f.Name]; dup {
+			viol("duplicate-part", f.Name)
+			return
+		}
+		files[f.Name] = b
+	}
+	for _, need := range []string{"3D/3dmodel.model", "_rels/.rels", "[Content_Types].xml"} {
+		if _, ok := files[need]; !ok {
+			viol("missing-part", need)
+			return
+		}
+	}
+	if !bytes.Contains(files["_rels/.rels"], []byte("/3D/3dmodel.model")) {
+		viol("relationship", "the package relationships do not point at /3D/3dmodel.model")
+	}
+	var model struct {
+		Unit    string `xml:"unit,attr"`
+		Objects []struct {
+			ID       string `xml:"id,attr"`
+			Vertices []struct {
+				X string `xml:"x,attr"`
+				Y string `xml:"y,attr"`
+				Z string `xml:"z,attr"`
+			} `xml:"mesh>vertices>vertex"`
+			Triangles []struct {
+				V1 string `xml:"v1,attr"`
+				V2 string `xml:"v2,attr"`
+				V3 string `xml:"v3,attr"`
+			} `xml:"mesh>triangles>triangle"`
+		} `xml:"resources>object"`
+		Items []struct {
+			ObjectID string `xml:"objectid,attr"`
+		} `xml:"build>item"`
+	}
+	if err := xml.Unmarshal(files["3D/3dmodel.model"], &model); err != nil {
+		viol("model-xml", err.Error())
+		return
+	}
+	if model.Unit != unit {
+		viol("unit", fmt.Sprintf("unit %q written, %q asked for", model.Unit, unit))
+	}
+	if len(model.Objects) != 1 || len(model.Items) != 1 || model.Items[0].ObjectID != model.Objects[0].ID {
+		viol("build", fmt.Sprintf("%d objects, %d build items; the build must refer to the one object", len(model.Objects), len(model.Items)))
+		return
+	}
+	o := model.Objects[0]
+	vs := make([][3]float64, len(o.Vertices))
+	for i, v := range o.Vertices {
+		for k, str := range []string{v.X, v.Y, v.Z} {
+			f, err := strconv.ParseFloat(str, 64)
+			if err != nil || math.IsNaN(f) || math.IsInf(f, 0) {
+				viol("vertex-number", fmt.Sprintf("vertex %d: %q", i, str))
+				return
+			}
+			vs[i][k] = f
+		}
+	}
+	if len(o.Triangles) != len(tris) {
+		viol("face-count", fmt.Sprintf("%d faces written, %d given", len(o.Triangles), len(tris)))
+		return
+	}
+	written := make([][3][3]float64, len(o.Triangles))
+	for i, t := range o.Triangles {
+		for k, str := range []string{t.V1, t.V2, t.V3} {
+			idx, err := strconv.Atoi(str)
+			if err != nil || idx < 0 || idx >= len(vs) {
+				viol("index-range", fmt.Sprintf("face %d: vertex index %q with %d vertices", i, str, len(vs)))
+				return
+			}
+			written[i][k] = vs[idx]
+		}
+	}
+	near := func(a, b float64) bool { return math.Abs(a-b) <= 1e-31+1e-15*math.Abs(b) }
+	same := func(w [3][3]float64, t *model3d.Triangle) bool {
+		for rot := 0; rot < 3; rot++ {
+			ok := true
+			for k := 0; k < 3 && ok; k++ {
+				a, b := w[(k+rot)%3], t[k].Array()
+				ok = near(a[0], b[0]) && near(a[1], b[1]) && near(a[2], b[2])
+			}
+			if ok {
+				return true
+			}
+		}
+		return false
+	}
+	used := make([]bool, len(written))
+	for _, t := range tris {
+		found := false
+		for i := range written {
+			if !used[i] && same(written[i], t) {
+				used[i], found = true, true
+				break
+			}
+		}
+		if !found {
+			viol("faces", fmt.Sprintf("face %v is not among the written faces (or fewer times than given)", *t))
+			return
 		}
 	}
 }
